@@ -301,7 +301,8 @@ fn parse_at_rule(
                             ss.append_token(st, input, Some(peek.token.clone()));
                             match xs {
                                 "layer" => {
-                                    convert_class_names_and_rpx_in_block(input, ss);
+                                    // (a dot in a layer name does not start a class name)
+                                    convert_rpx_in_block(input, ss, None);
                                 }
                                 "supports" => {
                                     let st =
@@ -432,6 +433,12 @@ fn parse_at_rule(
                                 ss.append_nested_block_close(close, input);
                             });
                             return Ok(false);
+                        }
+                        Token::Function(ref f) if f.eq_ignore_ascii_case("layer") => {
+                            // (a dot in a layer name does not start a class name)
+                            let close = ss.append_nested_block(next, input);
+                            convert_rpx_in_block(input, ss, None);
+                            ss.append_nested_block_close(close, input);
                         }
                         Token::SquareBracketBlock
                         | Token::ParenthesisBlock
